@@ -60,11 +60,43 @@ def load_prop(pid):
 _OBS_CACHE = {}
 
 
+def _fingerprint(fn, depth=0):
+    """identity of an obligation's harness: code location plus the (plain-data) contents of its closure"""
+    code = getattr(fn, "__code__", None)
+    if code is None:
+        return repr(fn)[:200]
+    parts = [code.co_filename, code.co_firstlineno]
+    for c in (getattr(fn, "__closure__", None) or ()):
+        try:
+            v = c.cell_contents
+        except ValueError:
+            v = None
+        parts.append(_fingerprint(v, depth + 1) if callable(v) and depth < 4 else repr(v)[:300])
+    return tuple(parts)
+
+
 def _obs(pid, tier):
+    """quick: the module's quick obligations.  thorough: the SAME quick obligations (required exactly as in the quick tier)
+    plus the module's thorough obligations that differ from them, as depth obligations: they are explored within what is left of
+    the wall budget, every counterexample they find is replayed and reported, but running out of budget on them is recorded
+    (exhaustive: false) instead of failing the command"""
     k = (pid, tier)
     if k not in _OBS_CACHE:
         mod = load_prop(pid)
-        _OBS_CACHE[k] = {o.name: o for o in mod.obligations(tier)}
+        quick = list(mod.obligations("quick"))
+        if tier != "thorough":
+            _OBS_CACHE[k] = {o.name: o for o in quick}
+        else:
+            out = {o.name: o for o in quick}
+            qfp = {o.name: _fingerprint(o.fn) for o in quick}
+            for o in mod.obligations("thorough"):
+                if o.name in qfp and qfp[o.name] == _fingerprint(o.fn):
+                    continue
+                if o.name in out:
+                    o.name = o.name + "-deep"
+                o.required = False
+                out[o.name] = o
+            _OBS_CACHE[k] = out
     return _OBS_CACHE[k]
 
 
